@@ -21,8 +21,10 @@ from sim.runner import run_parallel
 
 VERIF = os.path.dirname(os.path.dirname(os.path.abspath(__file__)))
 KNOWN_FILE = os.path.join(VERIF, "known_findings.json")
-REPLAY_DIR = os.path.join(VERIF, "replays")
-EVIDENCE_DIR = os.path.join(VERIF, "evidence")
+# (overridable so that development sweeps against seeded changes or other seeds do not clobber
+# the evidence of the registered runs)
+REPLAY_DIR = os.environ.get("VERIF_REPLAY_DIR") or os.path.join(VERIF, "replays")
+EVIDENCE_DIR = os.environ.get("VERIF_EVIDENCE_DIR") or os.path.join(VERIF, "evidence")
 
 
 def canon(obj) -> str:
